@@ -1252,7 +1252,7 @@ func specEntryOK(imp *ast.Import, k int) bool { return imp != nil && (k == 0 || 
 
 //@ func ParseProgram
 //@   props C04
-//@   opt splitpaths yes
+//@   opt absindex yes
 //@   opt absindex yes
 //@   loop 0
 //@     invariant main != nil && trees != nil
@@ -1359,3 +1359,65 @@ func specJSONEarly(t reflect.Type) bool {
 //@   panics allowed
 //@   requires pp != nil && len(pp.paths) > 0
 //@   ensures[C18] called("parseNodeFile") && lastErr("parseNodeFile") != nil && result != nil ==> result != os.ErrNotExist
+
+// ---------------------------------------------------------------------------
+// C04, package-level constants: the dependency analysis indexes the values of
+// a constant declaration by the positions of its names, so it may run only on
+// declarations with as many values as names. checkPackage establishes this for
+// every declaration of the package (checkBalancedConstantDeclaration returns
+// only for a balanced one) before it sorts the declarations; each function on
+// the way down carries it as a precondition.
+// ---------------------------------------------------------------------------
+
+// typedNil reports whether the interface value x wraps a nil pointer.
+func typedNil(x any) bool {
+	if x == nil {
+		return false
+	}
+	v := reflect.ValueOf(x)
+	return v.Kind() == reflect.Ptr && v.IsNil()
+}
+
+func specBalanced(n ast.Node) bool {
+	c, ok := n.(*ast.Const)
+	return !ok || c == nil || len(c.Lhs) == len(c.Rhs)
+}
+
+//@ func (*typechecker).errorf
+//@   props X00
+//@   trusted
+//@   modifies nothing
+//@   ensures result != nil
+
+//@ func newTypechecker
+//@   props X00
+//@   trusted
+//@   modifies nothing
+//@   opt allocates yes
+//@   ensures result != nil
+
+//@ func (*typechecker).checkBalancedConstantDeclaration
+//@   props X00 C04
+//@   panics allowed
+//@   opt puremethods Pos
+//@   modifies nothing
+//@   ensures[C04] len(node.Lhs) == len(node.Rhs)
+
+//@ func (*deps).analyzeGlobalConst
+//@   props C04
+//@   panics allowed
+//@   opt stable github.com/open2b/scriggo/ast.Const
+//@   requires d != nil && n != nil && len(n.Lhs) == len(n.Rhs)
+
+// (Not under contract: sortDeclarations and analyzeTree, which hand the
+// declarations on to analyzeGlobalConst unchanged - assumed.)
+//@ func checkPackage
+//@   opt absindex yes
+//@   props X00 C04
+//@   panics allowed
+//@   opt typednil yes
+//@   opt stable github.com/open2b/scriggo/ast.Const github.com/open2b/scriggo/ast.Package
+//@   requires pkg != nil && compilation != nil
+//@   callassert[C04] sortDeclarations 0 forall(0, len(pkg.Declarations), func(k int) bool { return specBalanced(pkg.Declarations[k]) })
+//@   loop 0
+//@     invariant[C04] forall(0, rangeIndex(0), func(k int) bool { return specBalanced(pkg.Declarations[k]) })
